@@ -11,6 +11,7 @@
    Process = three critical sections per caller c: Lookup(c) [f.mu]  Work(c) [r.mu]  Account(c) [f.mu].
    A caller that still holds a reassembler that has meanwhile been released sees r.done: cur[c].stale.
    With Atomic = TRUE the three sections are one action Arrive (single caller graph, replayed on the code).
+   Scripts: callers follow fixed fragment lists (gate scenarios; graph compared with the real interleaving graph).
 
    FixD1 / FixD3 select the repaired code (TRUE) or the shape before the fix: commits (FALSE):
      D1  reassemble error = panic          -> error: release the reassembler, deliver nothing
@@ -29,9 +30,10 @@ CONSTANTS NB,        \* datagram length bound (blocks)
           Timeout,   \* reassembly timeout in ticks (99 = no ageing)
           MaxTick,   \* the clock advances at most to MaxTick
           FixD1, FixD3, Atomic,
-          Script     \* <<>> : callers deliver any fragment; else [c \in Callers |-> sequence of [k, f]]
-VARIABLES obj, lru, fsize, now, pc, cur, pos, narr, crashed, seen, held, taint, bad, exp
-ivars == <<obj, lru, fsize, now, pc, cur, pos, narr, crashed>>
+          Scripts    \* <<>> : callers deliver any fragment; else a sequence of scenarios, each a tuple
+                     \* (indexed by caller) of sequences of [k, f]; the scenario is chosen in Init (sn)
+VARIABLES obj, lru, fsize, now, pc, cur, pos, narr, crashed, sn, seen, held, taint, bad, exp
+ivars == <<obj, lru, fsize, now, pc, cur, pos, narr, crashed, sn>>
 hvars == <<seen, held, taint, bad, exp>>
 vars  == <<ivars, hvars>>
 
@@ -51,7 +53,7 @@ NoExp == [k |-> 0, cons |-> TRUE, complete |-> FALSE, must |-> FALSE, len |-> 0]
 
 Init == /\ obj = [k \in Keys |-> Dead] /\ lru = <<>> /\ fsize = 0 /\ now = 0
         /\ pc = [c \in Callers |-> "idle"] /\ cur = [c \in Callers |-> Idle] /\ pos = [c \in Callers |-> 0]
-        /\ narr = 0 /\ crashed = FALSE
+        /\ narr = 0 /\ crashed = FALSE /\ sn \in (IF Scripts = <<>> THEN {0} ELSE DOMAIN Scripts)
         /\ seen = [k \in Keys |-> {}] /\ held = [k \in Keys |-> 0] /\ taint = [k \in Keys |-> FALSE]
         /\ bad = "" /\ exp = NoExp
 
@@ -153,9 +155,9 @@ Expired(k, t)  == \E g \in seen[k] : t - g.t > Timeout
 SetBad(b) == bad' = IF bad = "" THEN b ELSE bad
 
 ----------------------------------------------------------------------------
-Scripted == Script # <<>>
+Scripted == Scripts # <<>>
 Choice(c) == IF Scripted
-             THEN (IF pos[c] < Len(Script[c]) THEN {Script[c][pos[c] + 1]} ELSE {})
+             THEN (IF pos[c] < Len(Scripts[sn][c]) THEN {Scripts[sn][c][pos[c] + 1]} ELSE {})
              ELSE {[k |-> k, f |-> f] : k \in Keys, f \in Frags}
 F0 == [obj |-> obj, lru |-> lru, fsize |-> fsize]
 MarkStale(cu, pcs, rel, self) ==
@@ -171,7 +173,7 @@ Lookup(c, k, f) ==
   /\ seen' = [seen EXCEPT ![k] = @ \cup {[first |-> f.first, last |-> f.last, more |-> f.more, t |-> now]}]
   /\ held' = [held EXCEPT ![k] = @ + FLen(f)]
   /\ taint' = [taint EXCEPT ![k] = @ \/ Expired(k, now)]
-  /\ UNCHANGED <<now, crashed, bad, exp>>
+  /\ UNCHANGED <<now, crashed, sn, bad, exp>>
 
 Work(c) ==
   /\ ~Atomic /\ ~crashed /\ pc[c] = "work"
@@ -184,7 +186,7 @@ Work(c) ==
           THEN /\ SetBad(DeliveryBad(k, seen[k], w.out))
                /\ seen' = [seen EXCEPT ![k] = {}] /\ held' = [held EXCEPT ![k] = 0] /\ taint' = [taint EXCEPT ![k] = FALSE]
           ELSE UNCHANGED <<seen, held, taint, bad>>
-  /\ UNCHANGED <<lru, fsize, now, pos, narr, exp>>
+  /\ UNCHANGED <<lru, fsize, now, pos, narr, sn, exp>>
 
 Account(c) ==
   /\ ~Atomic /\ ~crashed /\ pc[c] = "acct"
@@ -193,7 +195,7 @@ Account(c) ==
        /\ cur' = [MarkStale(cur, pc, a.rel, c) EXCEPT ![c] = Idle]
   /\ pc' = [pc EXCEPT ![c] = "idle"]
   /\ taint' = IF Sum(held) > High THEN [j \in Keys |-> taint[j] \/ seen[j] # {}] ELSE taint
-  /\ UNCHANGED <<now, pos, narr, crashed, seen, held, bad, exp>>
+  /\ UNCHANGED <<now, pos, narr, crashed, sn, seen, held, bad, exp>>
 
 \* the whole of Process as one step (single caller); carries the P-expectation of the call in exp
 Arrive(k, f) ==
@@ -223,10 +225,10 @@ Arrive(k, f) ==
                            must |-> MustDeliver(Plain(S1), excused),
                            len |-> IF Complete(Plain(S1)) THEN EndOf(Plain(S1)) + 1 ELSE 0]
   /\ narr' = narr + 1
-  /\ UNCHANGED <<now, pc, cur>>
+  /\ UNCHANGED <<now, pc, cur, sn>>
 
 Tick == /\ ~crashed /\ now < MaxTick /\ now' = now + 1
-        /\ UNCHANGED <<obj, lru, fsize, pc, cur, pos, narr, crashed, hvars>>
+        /\ UNCHANGED <<obj, lru, fsize, pc, cur, pos, narr, crashed, sn, hvars>>
 
 Next == \/ \E c \in Callers : (\E k \in Keys, f \in Frags : Lookup(c, k, f)) \/ Work(c) \/ Account(c)
         \/ \E k \in Keys, f \in Frags : Arrive(k, f)
